@@ -415,7 +415,9 @@ def check_soup_history(ctx, h, ans_for=None):
         ctx.disagree(f'soup {h["role"]}: the history did not run to its end on the implementation ({out["escaped"]})',
                      {'kind': 'soup-history', 'history': h_json(h)})
     bad = soup_oracle(h, out)
-    if bad:
+    if bad and len(ctx.violations) >= 3:
+        report(ctx, f'soup {h["role"]}: {bad}', {'kind': 'soup-history', 'history': h_json(h)})      # not shrunk
+    elif bad:
         def failing(c):
             return soup_oracle(c, run_soup_history(c)) is not None
         m = shrink_soup(h, failing)
@@ -843,7 +845,9 @@ def check_fix_history(ctx, h, ans_for=None):
         ctx.disagree(f'FIX: the history did not run to its end on the implementation ({out["escaped"]})',
                      {'kind': 'fix-history', 'history': h})
     bad = fix_oracle(h, out)
-    if bad:
+    if bad and len(ctx.violations) >= 3 and not bad[1]:
+        report(ctx, 'FIX: ' + bad[0], {'kind': 'fix-history', 'history': h})                          # not shrunk
+    elif bad:
         def failing(c):
             return fix_oracle(c, run_fix_history(c)) is not None
         m = shrink_fix(h, failing)
